@@ -345,13 +345,22 @@ def wl_shared_style(ctx, rng, case_no):
     sys_a, sys_b = rng.sample(["standard", "256", "truecolor", "windows"], 2)
     cache = {}
     segs = real_segments(items, cache)
-    for system in (sys_a, sys_b, sys_a):
-        cfg = (system, False, True, False)
-        console = make_console(system)
+    # the tour also passes consoles with NO_COLOR in force - of the SAME colour system as a console that has already
+    # rendered these style objects, and of another one
+    import random as _random
+    r2 = _random.Random("tour/%d" % case_no)
+    tour = [(sys_a, False), (sys_b, False), (sys_a, False)]
+    if r2.random() < 0.5:
+        tour = r2.choice([[(sys_a, False), (sys_a, True), (sys_b, False), (sys_a, False)],
+                          [(sys_a, True), (sys_a, False), (sys_a, True)],
+                          [(sys_a, False), (sys_b, True), (sys_b, False), (sys_b, True)]])
+    for system, no_color in tour:
+        cfg = (system, no_color, True, False)
+        console = make_console(system, no_color=no_color)
         console.print(SegList(segs), crop=False)
         stream = console.file.getvalue()
         ctx.count("mon.shared_style")
-        wit = {"segments": _items_json(items), "order": [sys_a, sys_b, sys_a], "now": system, "stream": stream}
+        wit = {"segments": _items_json(items), "order": tour, "now": [system, no_color], "stream": stream}
         if not check_stream(ctx, stream, items, cfg, wit, ":style-object-shared-between-colour-systems"):
             break
     coloured = any(r and (r["fg"] or r["bg"]) for _, _, r in items)
